@@ -2069,6 +2069,12 @@ func (a *Agent) setSelector() {
 
 	s.Start()
 	a.selector = s
+
+	// Pairs formed before the role was known (candidates added before
+	// Dial/Accept) or before a role switch must rank with the current role.
+	for _, p := range a.checklist {
+		p.iceRoleControlling = a.isControlling.Load()
+	}
 }
 
 func (a *Agent) getSelector() pairCandidateSelector {
